@@ -215,6 +215,14 @@ class TensorSpace(LinearSpace):
             # `space.astype(bool)` would fail
             weighting = getattr(self, 'weighting', None)
             if weighting is not None:
+                array = getattr(weighting, 'array', None)
+                if (array is not None and
+                        not np.can_cast(array.dtype, dtype)):
+                    # Weights of higher precision than the new data type
+                    # are converted along with it
+                    weighting = type(weighting)(
+                        array.astype(TYPE_MAP_C2R.get(dtype, dtype)),
+                        exponent=weighting.exponent)
                 kwargs['weighting'] = weighting
 
         return type(self)(self.shape, dtype=dtype, **kwargs)
